@@ -54,6 +54,7 @@ type VC struct {
 	notes     []string
 	inputSyms []InputSym // for replay
 	nfresh    int
+	sideStack [][]*Term
 }
 
 type InputSym struct {
@@ -104,6 +105,11 @@ func (vc *VC) assume(t *Term) {
 
 func (vc *VC) assumeOnce(t *Term) {
 	if isTrue(t) {
+		return
+	}
+	if n := len(vc.sideStack); n > 0 {
+		// under a binder: the fact becomes a hypothesis of the quantified body
+		vc.sideStack[n-1] = append(vc.sideStack[n-1], t)
 		return
 	}
 	s := t.String()
@@ -165,6 +171,8 @@ type Frame struct {
 	loopHead    map[*LoopInfo]State
 	loopVariant map[*LoopInfo]*Term
 	deferState  []deferRec
+	ghosts      map[string]Value
+	whereSym    *Term
 }
 
 type deferRec struct {
@@ -956,7 +964,7 @@ func (x *Exec) enterLoop(fr *Frame, li *LoopInfo, cur *State) {
 	// 1. invariant holds on entry
 	entryState := cur.clone()
 	for k, inv := range spec.Invariants {
-		env := x.loopEnv(fr, li, &entryState)
+		env := x.loopEnv(fr, li, &entryState).asGoal()
 		g := env.evalBool(inv.Expr)
 		o := x.vc.oblige(fmt.Sprintf("inv.%d.init", li.Ordinal), Implies(entryState.Reach, g), pos, fmt.Sprintf("loop %d invariant %d holds on entry: %s", li.Ordinal, k+1, inv.Src))
 		o.Clause = inv.Src
@@ -981,10 +989,22 @@ func (x *Exec) enterLoop(fr *Frame, li *LoopInfo, cur *State) {
 				x.vc.assume(iGe(nw, old))
 			} else if !all {
 				// point-havoc when every store in the loop goes through loop-invariant roots
-				if roots, ok := x.loopStoreRoots(fr, li, k); ok {
+				if roots, ranges, ok := x.loopStoreRoots(fr, li, k); ok {
 					t := old
-					for _, r := range roots {
+					for ri, r := range roots {
 						t = Store(t, r, Select(nw, r))
+						// a store through a slice defined outside the loop stays within [off, off+cap)
+						if rg := ranges[ri]; rg != nil {
+							if _, inner, _ := arrSorts(old.S); strings.HasPrefix(inner, "(Array") {
+								m := x.m()
+								ixT := IntTy{64, true}
+								kv := fmt.Sprintf("k!%d", x.vc.nfresh)
+								x.vc.nfresh++
+								ks := Sym(kv, m.ixSort())
+								x.vc.assume(Forall([][2]string{{kv, m.ixSort()}}, Implies(Or(m.cmp(token.LSS, ks, rg[0], ixT), m.cmp(token.GEQ, ks, rg[1], ixT)),
+									Eq(Select(Select(nw, r), ks), Select(Select(old, r), ks)))))
+							}
+						}
 					}
 					// objects allocated inside the loop may also be written
 					if prefixes["$alloc"] {
@@ -1011,6 +1031,10 @@ func (x *Exec) enterLoop(fr *Frame, li *LoopInfo, cur *State) {
 		env := x.loopEnv(fr, li, cur)
 		x.vc.assume(Implies(cur.Reach, env.evalBool(inv.Expr)))
 	}
+	for _, us := range spec.Uses {
+		env := x.loopEnv(fr, li, cur)
+		x.vc.assume(Implies(cur.Reach, x.lemmaInstance(env, us)))
+	}
 	fr.loopHead[li] = cur.clone()
 	if spec.Decreases != nil {
 		env := x.loopEnv(fr, li, cur)
@@ -1036,8 +1060,9 @@ type pendingHavoc struct {
 
 // loopStoreRoots returns the root refs of all stores into component k inside the loop when all are
 // loop-invariant SSA values; ok=false otherwise.
-func (x *Exec) loopStoreRoots(fr *Frame, li *LoopInfo, comp string) ([]*Term, bool) {
+func (x *Exec) loopStoreRoots(fr *Frame, li *LoopInfo, comp string) ([]*Term, []*[2]*Term, bool) {
 	var roots []*Term
+	var ranges []*[2]*Term
 	for b := range li.Body {
 		for _, ins := range b.Instrs {
 			switch i := ins.(type) {
@@ -1048,38 +1073,56 @@ func (x *Exec) loopStoreRoots(fr *Frame, li *LoopInfo, comp string) ([]*Term, bo
 				}
 				rv := rootValue(i.Addr)
 				if rv == nil {
-					return nil, false
+					return nil, nil, false
 				}
 				if ins2, ok := rv.(ssa.Instruction); ok && li.Body[ins2.Block()] {
-					return nil, false
+					return nil, nil, false
 				}
 				v, ok := fr.env[rv]
-				if _, isParam := rv.(*ssa.Parameter); isParam || ok {
-					if !ok {
-						return nil, false
+				if !ok {
+					return nil, nil, false
+				}
+				switch v.K {
+				case KPtr:
+					roots = append(roots, v.Loc.Root)
+					ranges = append(ranges, nil)
+				case KSlice:
+					roots = append(roots, v.Loc.Root)
+					if len(v.Loc.Elems) == 0 {
+						ext := v.Len // indexing is checked against len; only reslicing reaches cap
+						for a := i.Addr; a != rv; {
+							switch aa := a.(type) {
+							case *ssa.FieldAddr:
+								a = aa.X
+							case *ssa.IndexAddr:
+								a = aa.X
+							case *ssa.Slice:
+								ext = v.Cap
+								a = aa.X
+							default:
+								a = rv
+							}
+						}
+						ranges = append(ranges, &[2]*Term{v.Off, x.ixAdd(v.Off, ext)})
+					} else {
+						ranges = append(ranges, nil)
 					}
-					switch v.K {
-					case KPtr, KSlice:
-						roots = append(roots, v.Loc.Root)
-					default:
-						return nil, false
-					}
-				} else {
-					return nil, false
+				default:
+					return nil, nil, false
 				}
 			case *ssa.Call:
 				mc := x.calleeModSet(fr, i.Common())
 				if mc.all || prefixMatches(comp, mc.prefixes) {
-					return nil, false
+					return nil, nil, false
 				}
 			case *ssa.MapUpdate:
 				if strings.HasPrefix(comp, "Map.") {
-					return nil, false
+					return nil, nil, false
 				}
 			}
 		}
 	}
-	return roots, true
+	return roots, ranges, true
 }
 
 // rootValue walks an address expression to the SSA value providing the root reference.
@@ -1162,7 +1205,7 @@ func (x *Exec) closeLoop(fr *Frame, li *LoopInfo, from *ssa.BasicBlock, st *Stat
 		fr.env[phi] = nv
 	}
 	for k, inv := range spec.Invariants {
-		env := x.loopEnv(fr, li, st)
+		env := x.loopEnv(fr, li, st).asGoal()
 		g := env.evalBool(inv.Expr)
 		o := x.vc.oblige(fmt.Sprintf("inv.%d.keep", li.Ordinal), Implies(st.Reach, g), pos, fmt.Sprintf("loop %d invariant %d preserved: %s", li.Ordinal, k+1, inv.Src))
 		o.Clause = inv.Src
